@@ -40,12 +40,6 @@ Definition transparent_res (o : op) (r : opres) : Prop :=
   end.
 
 (* L3 *)
-Definition fsid (f : dframe) : option N :=
-  match f with
-  | FHeaders s _ _ | FData s _ _ | FRst s _ => Some s
-  | _ => None
-  end.
-
 Definition concerns (s : N) (e : bool * dframe) : bool :=
   match snd e with
   | FGoAway _ _ => true
